@@ -304,6 +304,17 @@ func runStrgen(c strgenCase, r *pb.Rec) error {
 			return fmt.Errorf("rune %q not in charset %q", ch, c.Charset)
 		}
 	}
+	// the same generator again with another length
+	n2 := (c.N*7 + 3) % 97
+	out2 := gen.Generate(n2)
+	if k := utf8.RuneCountInString(out2); k != n2 || !utf8.ValidString(out2) {
+		return fmt.Errorf("second Generate(%d) on the same generator returned %d runes: %q", n2, k, out2)
+	}
+	for _, ch := range out2 {
+		if !strings.ContainsRune(c.Charset, ch) {
+			return fmt.Errorf("second Generate: rune %q not in charset %q", ch, c.Charset)
+		}
+	}
 	sz := utf8.RuneCountInString(c.Charset)
 	r.NonTrivialIf(c.N > 0 && sz&(sz-1) != 0)
 	r.ClassIf(sz&(sz-1) != 0, "charset size not a power of two")
@@ -371,6 +382,60 @@ func runCount(c countCase, r *pb.Rec) error {
 	return nil
 }
 
+// ---------------------------------------------------------------- package-level defaults (Id, String)
+
+type defCase struct {
+	N       int
+	Charset string // "" keeps the current default set
+}
+
+func genDef(t *rapid.T) defCase {
+	c := defCase{N: rapid.IntRange(0, 120).Draw(t, "n")}
+	if rapid.IntRange(0, 3).Draw(t, "setCharset") == 0 {
+		c.Charset = rapid.SampledFrom([]string{randz.CHAR_SET, randz.CHAR_LOWER_SET, "ab", "x", "日本語かな", "0123456789abcdefghijklmnopqrstuvwxyzABCDEFGHIJKLMNOPQRSTUVWXYZ_-+"}).Draw(t, "charset")
+	}
+	return c
+}
+
+var currentDefault = randz.CHAR_SET
+
+func runDef(c defCase, r *pb.Rec) error {
+	if c.N < 0 || c.N > 10000 {
+		return nil
+	}
+	if c.Charset != "" {
+		randz.SetStrGeneratorCharSet(c.Charset)
+		currentDefault = c.Charset
+	}
+	s := randz.String(c.N)
+	if n := utf8.RuneCountInString(s); n != c.N {
+		return fmt.Errorf("randz.String(%d) returned %d runes (%q) with charset %q", c.N, n, s, currentDefault)
+	}
+	for _, ch := range s {
+		if !strings.ContainsRune(currentDefault, ch) {
+			return fmt.Errorf("randz.String(%d) produced %q which is not in the configured charset %q", c.N, ch, currentDefault)
+		}
+	}
+	// default id generator: start time 2023-02-27 00:30 UTC, 18 random bits
+	start := time.Date(2023, 2, 27, 0, 30, 0, 0, time.UTC)
+	before := time.Since(start).Milliseconds()
+	id := randz.Id()
+	after := time.Since(start).Milliseconds()
+	if id < 0 {
+		return fmt.Errorf("randz.Id() = %d is negative", id)
+	}
+	if ts := int64(id) >> 18; ts < before || ts > after {
+		return fmt.Errorf("randz.Id() carries timestamp %d, elapsed milliseconds were in [%d,%d]", ts, before, after)
+	}
+	back, err := randz.ParseBase32([]byte(id.Base32()))
+	if err != nil || back != id {
+		return fmt.Errorf("ParseBase32(Id().Base32()) = %d,%v want %d", back, err, id)
+	}
+	r.NonTrivialIf(c.N > 0)
+	r.ClassIf(c.Charset != "", "default charset replaced")
+	return nil
+}
+
 func init() {
 	pb.Register("id_numerals", pb.Options{Base: 10000, Rule: "IDs from boundaries (32^k±1, 2^63-1) and uniform over bit-lengths; non-trivial = id >= 32 (multi-digit)"}, genID, runID)
 	pb.Register("parse_base32", pb.Options{Base: 15000, Required: []string{"one illegal byte >= 32", "valid string"}, Rule: "byte strings of length 0..14 mixing alphabet digits, look-alike and arbitrary bytes; non-trivial = exactly one illegal byte and it is >= 32"}, genParse, runParse)
@@ -383,5 +448,6 @@ func init() {
 	})
 	pb.Register("idgen", pb.Options{Base: 150, Required: []string{"randBit<=1", "randBit>22"}, Rule: "randBit -3..40, start time up to 60 years ago, 1-4 ids with clock-bracketed >=1ms gaps; non-trivial = non-default randBit and non-zero elapsed time"}, genIdgen, runIdgen)
 	pb.Register("strgen", pb.Options{Base: 8000, Required: []string{"charset size not a power of two", "multi-byte charset", "n=0"}, Rule: "duplicate-free charsets of sizes around powers of two (1..70 runes, ASCII or mixed width), n 0..200, PRNG source optionally preceded by adversarial words; non-trivial = n>0 and charset size not a power of two"}, genStrgen, runStrgen)
+	pb.Register("package_defaults", pb.Options{Base: 3000, Required: []string{"default charset replaced"}, Rule: "randz.String(n) with the default and replaced default charsets (SetStrGeneratorCharSet), randz.Id() bracketed by clock reads against the default start time, Base32 round trip of generated ids; non-trivial = n > 0"}, genDef, runDef)
 	pb.Register("countgen", pb.Options{Base: 8000, Required: []string{"elapsed on a rule boundary"}, Rule: "1-5 rules with positive parameters, elapsed times on every rule boundary ±2 and drawn in between; non-trivial = >= 2 rules and a boundary probed"}, genCount, runCount)
 }
